@@ -69,6 +69,7 @@ def run(tier):
     c.mc_negative('PseudoRead', 'MC_PseudoRead_impl_D9_q.cfg', expect_inv='Inv_C15_Exists', workers=4)
     c.mc_negative('PseudoRead', 'MC_PseudoRead_impl_D10_q.cfg', expect_inv='Inv_C15_MD', workers=4)
     c.mc_negative('PseudoRead', 'MC_PseudoRead_split_ge_q.cfg', expect_inv='Inv_D_Split', workers=4)
+    c.mc_negative('PseudoRead', 'MC_PseudoRead_maxn_falsy_q.cfg', expect_inv='Inv_C15_MaxNSpan', workers=4)
     c.mc_negative('PseudoRead', 'MC_PseudoRead_tf_no_overflow_q.cfg', expect_inv='Inv_C15_Tags', workers=4)
     c.mc_negative('PseudoRead', 'MC_PseudoRead_umi_max_q.cfg', expect_inv='Inv_C15_Tags', workers=4)
     c.mc_negative('PseudoRead', 'MC_PseudoRead_site_leftmost_q.cfg', expect_inv='Inv_C15_Tags', workers=4)
